@@ -93,7 +93,11 @@ def build_ops(case, tier):
     meta.extend([None] * len(ops))
     r1, r2 = bytes(t1.root_hash), bytes(t2.root_hash)
     for k in keys:
-        proof = [HX.raw_obs(n) for n in t1.get_proof(k)]
+        raw_proof = list(t1.get_proof(k))
+        proof = [HX.raw_obs(n) for n in raw_proof]
+        import rlp as _rlp
+        # a node of the path that is referenced by hash: the root always, the others when their encoding has 32 bytes or more
+        hashed = [i == 0 or len(_rlp.encode(n)) >= 32 for i, n in enumerate(raw_proof)]
         ops.append(("proof", k))
         meta.append((k, r1, "proof", path_nodes(t1.db, r1, k)))
         # asked again: the caller has meanwhile overwritten the node lists the first call returned (HX.scribble); a proof is
@@ -101,11 +105,13 @@ def build_ops(case, tier):
         ops.append(("proof", k))
         meta.append((k, r1, "proof", path_nodes(t1.db, r1, k)))
         variants = [("true", proof, r1)]
+        # WITHHELD nodes, offered right after the honest proof was verified against the same root in the same process: whenever the
+        # withheld node is referenced by hash the answer must be BadTrieProof, whatever was verified before ("withheld!")
         for i in range(len(proof)):
-            variants.append(("drop", proof[:i] + proof[i + 1:], r1))
+            variants.append(("withheld!" if hashed[i] else "drop", proof[:i] + proof[i + 1:], r1))
         if len(proof) >= 2:
             i, j = sorted(rng.sample(range(len(proof)), 2))
-            variants.append(("drop2", [n for x, n in enumerate(proof) if x not in (i, j)], r1))
+            variants.append(("withheld!" if hashed[i] or hashed[j] else "drop2", [n for x, n in enumerate(proof) if x not in (i, j)], r1))
             sw = list(proof)
             sw[i], sw[j] = sw[j], sw[i]
             variants.append(("swap", sw, r1))
@@ -118,7 +124,7 @@ def build_ops(case, tier):
             variants.append(("foreign", proof[:1] + other_nodes + proof[1:], r1))
             variants.append(("foreign_only", other_nodes, r1))
             variants.append(("other_root", proof + other_nodes, r2))
-        variants.append(("empty", [], r1))
+        variants.append(("withheld!" if proof else "empty", [], r1))
         for kind, pr, root in variants:
             ops.append(("fromproof", root, k, pr))
             meta.append((k, root, kind))
@@ -139,7 +145,7 @@ def build_ops(case, tier):
             key = bytes.fromhex("123456")
             case.setdefault("crafted_truth", {})[root] = {key: val}
             for kk, kind, pr in ((key, "true", [top] + stored), (bytes.fromhex("123457"), "true", [top] + stored),
-                                 (bytes.fromhex("12"), "true", [top] + stored), (key, "drop", [top] + stored[:-1] if stored else [top])):
+                                 (bytes.fromhex("12"), "true", [top] + stored), (key, "withheld!" if stored else "true", [top] + stored[:-1] if stored else [top])):
                 ops.append(("fromproof", root, kk, [HX.raw_obs(n) for n in pr]))
                 meta.append((kk, root, kind))
     return ops, meta, r1, r2
@@ -166,6 +172,10 @@ def oracle(case, ops, meta, outs, r1, r2):
         if kind == "true":
             if out != real:
                 return f"get_from_proof(get_proof(k)) = {out!r}, get(k) = {real!r}", stats
+        elif kind == "withheld!":
+            if out != Exc(4):
+                return f"a node of the key's path that is referenced by hash was withheld, yet get_from_proof answered {out!r} instead of BadTrieProof", stats
+            stats["bad"] += 1
         else:
             if out == Exc(4):
                 stats["bad"] += 1
